@@ -197,6 +197,11 @@ def make_distance_matrix_from_adjacency_matrix(AG):
     if sps.issparse(AG):
         # the csgraph routines accept csr, csc and lil storage only
         AG = AG.tocsr()
+        # block (bsr) storage and hand-built matrices can hold explicitly stored
+        # zeros, which the unweighted csgraph routines would read as edges
+        if AG.nnz and not AG.data.all():
+            AG = AG.copy()
+            AG.eliminate_zeros()
     elif not isinstance(AG, np.ndarray):
         AG = np.asarray(AG)
 
